@@ -102,6 +102,8 @@ def request(S, z, ladder, emb: Emb, with_units=False, nest=False, twin=0):
         if emb.native_latent and hi - lo == 1 and s["k"] == "C":
             t_tar = t_sup            # an isothermal stream: the code's own "supply == target means a 0.01 K latent stream" rule
         name = f"S{i}" if (twin and i == twin) else f"S{i+1}"       # the second of two identical parallel branches repeats the first one's row
+        if twin and i == twin + 1:
+            name = f"S{twin}_2"          # ... and the stream after them bears the name a renamed duplicate would like to take
         streams.append(dict(zone=zlabel(z[i], nest), name=name, t_supply=num(t_sup, "degC"), t_target=num(t_tar, "degC"),
                             heat_flow=num(emb.Q(s["cp"] * (hi - lo)), "kW"), dt_cont=num(emb.dT(s["dtc"]), "degC"), htc=num(1.0, "kW/m2K")))
     # a declared (installed) duty on the utility is legal input and must not influence targeting; inactive utilities must be ignored
